@@ -100,6 +100,11 @@ impl Visitor<Diagnostic> for SymbolTable<'_, Id, DummyNode> {
         node.recurse_visit(self)
     }
 
+    fn visit_edge_var_decl(&mut self, node: &EdgeVarDecl) -> Result<Self::Value, Diagnostic> {
+        self.add(&node.identifier, DummyNode {});
+        Ok(())
+    }
+
     fn visit_named_variable(
         &mut self,
         node: &ironplc_dsl::textual::NamedVariable,
